@@ -22,6 +22,8 @@ func TestMain(m *testing.M) { pk.Main(m) }
 type Case struct {
 	px.ProgCase
 	Kind string // parsed | analyzed | optimize
+	// AllModules (analyzed): every module of the program is replaced by its printed text, not the entry only
+	AllModules bool `json:",omitempty"`
 }
 
 func behaviour(resp *sb.Response) string {
@@ -128,7 +130,7 @@ func checkRoundTrip(c Case) *pk.Failure {
 		return pk.Failf(c.Kind, c.Kind+":print-failed", "printing failed: %s\n%s", printed.Err, px.ProgText(c.ProgCase))
 	}
 	texts := printed.Texts
-	if c.Kind == "analyzed" {
+	if c.Kind == "analyzed" && !c.AllModules {
 		// the fuzz tool chain serialises the entry module; other modules keep their source
 		t2 := map[string]string{}
 		for n, t := range c.Modules {
@@ -236,6 +238,54 @@ func TestOptimizer(t *testing.T)         { runKind(t, "optimize") }
 var importRe = regexp.MustCompile(`(?m)^\s*import\b[^;]*\bfrom\s+([A-Za-z_][A-Za-z0-9_]*)\s*;`)
 
 // Shipped scripts: every example / test script that the analyzer accepts as a single module.
+// Programs of several modules, every module printed: what a module exports (pub functions, globals, types) is
+// part of the program too.
+var moduleForms = map[string]map[string]string{
+	"pub-items": {
+		"main": "import { g, type T, f } from a;\nfn main() { let t: T = new { v: g }; println(t.v, f()); }\n",
+		"a":    "pub let g = 5;\npub type T = { v: int };\npub fn f() -> int { g + 1 }\nlet hidden = 1;\ntype H = int;\nfn main() {}\n"},
+	"chain": {
+		"main": "import { top } from a;\nfn main() { println(top(2)); }\n",
+		"a":    "import { base, type N } from b;\npub fn top(x: int) -> int { let n: N = x; n * base }\nfn main() {}\n",
+		"b":    "pub let base = 10;\npub type N = int;\nfn main() {}\n"},
+	"shared-global": {
+		"main": "import { counter, bump } from a;\nimport { viab } from b;\nfn main() { bump(); println(counter, viab()); }\n",
+		"a":    "pub let counter = 0;\npub fn bump() { counter += 1; }\nfn main() {}\n",
+		"b":    "import { counter } from a;\npub fn viab() -> int { counter * 2 }\nfn main() {}\n"},
+	"pub-object-and-option-types": {
+		"main": "import { type P, type O, mk } from a;\nfn main() { let p: P = mk(1); let o: O = ?p; println(p.x, o.is_some()); }\n",
+		"a":    "pub type P = { x: int, l: [str] };\npub type O = ?P;\npub fn mk(x: int) -> P { new { x: x, l: [\"s\"] } }\nfn main() {}\n"},
+}
+
+func TestTableModuleForms(t *testing.T) {
+	pk.SkipIfReplay(t)
+	col := pk.NewCollector()
+	names := make([]string, 0, len(moduleForms))
+	for n := range moduleForms {
+		names = append(names, n)
+	}
+	sort.Strings(names)
+	k := 0
+	for _, n := range names {
+		for _, kind := range []string{"parsed", "analyzed", "optimize"} {
+			k++
+			if !pk.Mine(k) {
+				continue
+			}
+			c := Case{ProgCase: px.ProgCase{Modules: moduleForms[n], Entry: "main", Limits: sb.DefaultLimits(), Note: "modules " + n}, Kind: kind, AllModules: true}
+			pk.Eval()
+			pk.NonTrivial(n+kind, map[string]any{"program": n, "kind": kind})
+			f := checkRoundTrip(c)
+			if f != nil {
+				f.Sig = f.Sig + " [modules " + n + "]"
+			}
+			col.Report(c, f)
+		}
+	}
+	pk.Exhaustive("module-forms")
+	col.Done(t)
+}
+
 func TestTableShipped(t *testing.T) {
 	pk.SkipIfReplay(t)
 	col := pk.NewCollector()
